@@ -583,14 +583,17 @@ func (s *socket) Close(discard bool) {
 		return
 	}
 
-	if s.ReadyState() != "open" {
-		return
-	}
 	if verifhook.Enabled {
 		verifhook.Point("socket.Close.window", s)
 	}
-
-	s.SetReadyState("closing")
+	// one step: a close that completes in between must not be overwritten by "closing"
+	if !s.readyState.CompareAndSwap("open", "closing") {
+		return
+	}
+	socket_log.Debug("readyState updated from %s to %s", "open", "closing")
+	if verifhook.Enabled {
+		verifhook.Point("socket.readyState", s, "open", "closing")
+	}
 
 	if length := s.writeBuffer.Len(); length > 0 {
 		socket_log.Debug("there are %d remaining packets in the buffer, waiting for the 'drain' event", length)
